@@ -15,6 +15,7 @@ Known findings (oracle unchanged, generator mostly avoids the classes, failures 
 are reported as KNOWN-FINDING):
   F9    prime-field source of bit length >= l+f+3 for a SecInt(l)/SecFxp(l,f) target
   F06a  source or target is a small prime field that mpyc lifts to an extension field (m >= p, t >= 1)
+  F06b  signed SecFld(2) source: 1 is converted to -1
 """
 from hypothesis import strategies as st
 from vlib.boot import boot
@@ -29,7 +30,7 @@ RULE = ('generated (m<=7,t,PRSS on/off) x ordered pairs (source,target) over Sec
         'that fit both types (range ends, 0, +-1, near-integers and halves for fixed point, powers of two, '
         'random) dealt by a generated party, converted with mpc.convert as a list or one by one and opened '
         'at all parties; oracle: exact integer/rational equality, {floor,ceil} where fractional bits are '
-        'dropped; plus exhaustive cells: every common value of every ordered pair of 15 tiny types at m=1 and '
+        'dropped; plus exhaustive cells: every common value of every ordered pair of 12 tiny types (16 at t=0) at m=1, m=2 and '
         'm=3,t=1 (PRSS on/off); non-trivial = t>=1 (mask is a sum of several parties\' randomness), m>=3 and '
         'source type != target type; distinct by case hash')
 ASSUMPTIONS = ['sec_param k=30 (statistical masking; default-size fields of l+f+k+2 bits)',
@@ -51,7 +52,7 @@ PRIMES_T = PRIMES + [2**89 - 1, 2**127 - 1]
 
 
 def budget(tier):
-    return dict(shards=16, examples=90 if tier == 'quick' else 1500)
+    return dict(shards=16, examples=400 if tier == 'quick' else 6000)
 
 
 # ------------------------------------------------------------------ type helpers (pure, no mpyc)
@@ -340,7 +341,11 @@ def run_case(case):
                        n_nt=(n if nt else 0) if case['mode'] == 'cell' else None,
                        exhaustive=case['mode'] == 'cell')
     known = None
-    if S == ['fld', 2, True] and not in_lift and all(o == outs[0] for o in outs):
+    if in_lift and all(o == outs[0] for o in outs):
+        # lifted target: masks are drawn as arbitrary extension-field elements; when they happen to be constants
+        # the output conversion does not assert and a wrong subfield element comes out
+        known = 'F06a'
+    elif S == ['fld', 2, True] and not in_lift and all(o == outs[0] for o in outs):
         # F06b: signed GF(2) source: 1 comes out as -1 (offset p//2 = 1 instead of (p-1)//2 = 0)
         tlo, thi = raw_range(T)
         minus1 = (-1 << frac(T)) if T[0] != 'fld' else (-1 if T[2] else T[1] - 1)
